@@ -88,6 +88,10 @@ func CookieSet(w http.ResponseWriter, name string) (value string, maxAge int, ok
 	return "", 0, false
 }
 
+// Fingerprint renders the value x points to, one level deep (nested pointers by address): equal before and
+// after a call iff no field was written. Symbolically a constant: there the write frame decides.
+func Fingerprint(x any) string { stub(); return "" }
+
 // Debugf records a diagnostic line in native runs; ignored symbolically.
 func Debugf(format string, args ...any) { stub() }
 
